@@ -60,6 +60,12 @@ func c07Graphs(thorough bool) []c07Graph {
 		c07Graph{desc: "page-is-the-default-layout", files: map[string]string{"layouts/base.vuego": c07Layout("base", "", "")}, page: "layouts/base.vuego", want: []string{"base", "base"}},
 		c07Graph{desc: "page-is-a-named-layout", files: map[string]string{"layouts/post.vuego": c07Layout("post", "base", ""), "layouts/base.vuego": c07Layout("base", "", "")}, page: "layouts/post.vuego", want: []string{"base", "post"}},
 		c07Graph{desc: "page-is-a-layout-without-layout-key", files: map[string]string{"layouts/post.vuego": c07Layout("post", "", ""), "layouts/base.vuego": c07Layout("base", "", "")}, page: "layouts/post.vuego", want: []string{"base", "post"}},
+		// the page is a COMPLETE HTML DOCUMENT: the rule does not look at the page's shape - no layout named and layouts/base.vuego there means
+		// the default layout applies; a named layout applies likewise
+		c07Graph{desc: "document-page-default-base", files: map[string]string{"p.vuego": "---\ntitle: PT\n---\n<!DOCTYPE html>\n<html><head><title>t</title></head><body><p data-m=\"page\">{{ title }} {{ fromfill }}</p></body></html>\n", "layouts/base.vuego": c07Layout("base", "", "")}, want: []string{"base", "page"}},
+		c07Graph{desc: "bare-document-page-default-base", files: map[string]string{"p.vuego": "<html><body><p data-m=\"page\">{{ fromfill }}</p></body></html>", "layouts/base.vuego": c07Layout("base", "", "")}, want: []string{"base", "page"}},
+		c07Graph{desc: "document-page-named-layout", files: map[string]string{"p.vuego": "---\ntitle: PT\nlayout: post\n---\n<!DOCTYPE html>\n<html><body><p data-m=\"page\">{{ title }} {{ fromfill }}</p></body></html>\n", "layouts/post.vuego": c07Layout("post", "", ""), "layouts/base.vuego": c07Layout("base", "", "")}, want: []string{"post", "page"}},
+		c07Graph{desc: "document-page-no-base", files: map[string]string{"p.vuego": "<!DOCTYPE html>\n<html><body><p data-m=\"page\">{{ fromfill }}</p></body></html>\n"}, want: []string{"page"}},
 		// a file that names ITSELF (relative resolution comes first) does not end - also when layouts/ holds a file of that name
 		c07Graph{desc: "self-named-page-with-layouts-twin", files: map[string]string{"blog.vuego": c07Page("blog"), "layouts/blog.vuego": c07Layout("twin", "", "")}, page: "blog.vuego", wantErr: true},
 		c07Graph{desc: "self-named-page-in-directory", files: map[string]string{"pages/post.vuego": c07Page("post.vuego"), "layouts/post.vuego": c07Layout("twin", "", "")}, page: "pages/post.vuego", wantErr: true},
